@@ -13,7 +13,7 @@ LEVEL = "model_checking"
 GEN = "CONSTANTS MaxEv = %d\n MaxHead = %d\n Sim = %s\nINIT Init\nNEXT Next\nINVARIANTS NumberingOK Emit\nCHECK_DEADLOCK FALSE\n"
 UMAP = {"~E": "é", "~U": "Ü"}
 E = docs.EXT
-OPTS = [("default", docs.STD), ("random", docs.STD | E["RANDOM_FOOT"]), ("unique", docs.STD | E["RANDOM_LABELS"]), ("compatish", E["NOTES"])]
+OPTS = [("default", docs.STD), ("random", docs.STD | E["RANDOM_FOOT"]), ("unique", docs.STD | E["RANDOM_LABELS"]), ("nolabels", docs.STD | E["NO_LABELS"]), ("compatish", E["NOTES"])]
 
 
 def enc(s):
@@ -74,8 +74,8 @@ def run(tier, seed):
         s = ["seg\tnotes", "wantout\t1"]
         for j, d in enumerate(dl[i:i + per]):
             s.append(line("src", "n%d" % j, sx(enc(d["src"]))))
-            for oi, (on, ox) in enumerate(OPTS[:3]):
-                if oi == 0 or (i + j + oi) % 3 == 0:
+            for oi, (on, ox) in enumerate(OPTS[:4]):
+                if oi == 0 or (i + j + oi) % 4 == 0:
                     s.append(line("conv", "s_conv", "n%d" % j, 0, ox, 0))
         segs.append(s)
     res = run_harness(exe, segs, timeout=30)
@@ -94,7 +94,7 @@ def run(tier, seed):
     nconv = len([e for e in trace if e["e"] == "anchors"])
     chk.add("traces_validated_against_impl", nconv - len(rejected))
     chk.cov["evaluations"] = nconv; chk.cov["distinct_nontrivial"] = len(dl)
-    chk.cov["rule"] = "documents: TLC BFS over note histories of <= %d events (calls to 3 labels x 3 kinds, inline footnotes, not-cited citations) x {plain, list, quote} x TOC x table; TLC BFS over 1-2 headings (5 title shapes x 4 styles x manual label x referenced); simulation mixing 5 events and 3 headings; each rendered default and (rotating) with --random / --unique" % (3 if tier == "quick" else 4)
+    chk.cov["rule"] = "documents: TLC BFS over note histories of <= %d events (calls to 3 labels x 3 kinds, inline footnotes, not-cited citations) x {plain, list, quote} x TOC x table; TLC BFS over 1-2 headings (5 title shapes x 4 styles x manual label x referenced); simulation mixing 5 events and 3 headings; each with and without 'Base Header Level: 2' metadata, rendered default and (rotating) with --random / --unique / --nolabels" % (3 if tier == "quick" else 4)
     chk.sample(dict(src=dl[3]["src"][:300])); chk.sample(dict(src=gs.printed[-1]["src"][:400]))
     seen = {}
     for seg, idx in rejected:
